@@ -38,10 +38,7 @@ type Inst struct {
 }
 
 var (
-	seq      atomic.Int64
-	tmplOnce sync.Once
-	tmplDir  string
-	tmplErr  error
+	seq atomic.Int64
 	// RootID of template instances.
 	TemplateRoot = "root0"
 )
@@ -78,26 +75,37 @@ type Opts struct {
 	RawRootID bool
 }
 
-// template builds one initialised database that fresh instances copy
-// (first-time initialisation costs ~7 ms, a copy ~30 us).
-func template() (string, error) {
-	tmplOnce.Do(func() {
-		tmplDir = newDir()
-		i, err := start(Opts{NoTemplate: true, RootID: TemplateRoot, URL: "nats://template"}, filepath.Join(tmplDir, "db"))
-		if err != nil {
-			tmplErr = err
-			return
-		}
-		i.Stop()
-		nats.RemoveBus("nats://template")
-	})
-	return filepath.Join(tmplDir, "db"), tmplErr
+var (
+	tmplMu   sync.Mutex
+	tmplDirs = map[string]string{}
+)
+
+// template builds one initialised database per root id that fresh instances
+// copy (first-time initialisation costs ~7 ms, a copy ~30 us).
+func template(root string) (string, error) {
+	tmplMu.Lock()
+	defer tmplMu.Unlock()
+	if d, ok := tmplDirs[root]; ok {
+		return filepath.Join(d, "db"), nil
+	}
+	dir := newDir()
+	url := "nats://template-" + root
+	i, err := start(Opts{NoTemplate: true, RootID: root, URL: url}, filepath.Join(dir, "db"))
+	if err != nil {
+		return "", err
+	}
+	i.Stop()
+	tmplDirs[root] = dir
+	return filepath.Join(dir, "db"), nil
 }
 
-// CleanupTemplate removes the template directory.
+// CleanupTemplate removes the template directories.
 func CleanupTemplate() {
-	if tmplDir != "" {
-		os.RemoveAll(tmplDir)
+	tmplMu.Lock()
+	defer tmplMu.Unlock()
+	for k, d := range tmplDirs {
+		os.RemoveAll(d)
+		delete(tmplDirs, k)
 	}
 }
 
@@ -109,8 +117,12 @@ func New(o Opts) (*Inst, error) {
 		file = o.File
 		os.RemoveAll(dir)
 		dir = ""
-	} else if !o.NoTemplate && (o.RootID == "" || o.RootID == TemplateRoot) {
-		t, err := template()
+	} else if !o.NoTemplate {
+		r := o.RootID
+		if r == "" {
+			r = TemplateRoot
+		}
+		t, err := template(r)
 		if err != nil {
 			return nil, err
 		}
